@@ -47,8 +47,8 @@ CHECK = {
            'five backends (pipe up to 32768): result, stell/seof, sflush, size and content on disk, one sread(n), the read at end-of-file, sread(m) for every '
            'ladder size m <= n, sclose, disk again.  BFS instances named *-bufsiz / d6-full use a BUFSIZ-byte big block instead of 8193'),
   'bounds': {
-    'quick': 'all histories of depth <= 5 over the full 54-operation alphabet (gcc build); depth <= 4 under ASan+UBSan; print ladder N = 0..300 and 14 larger sizes up to 20000 x 3 variants, byte sweep 5 backends x 2 layouts x 2 write chunkings, write-size ladder 19 sizes x 2 alignments x 5 backends (gcc and ASan); depth <= 4 also with a BUFSIZ-byte big block',
-    'thorough': 'all histories of depth <= 7 over 53 operations (all but the 257-character print_to) and of depth <= 6 over the full 54-operation alphabet (gcc build); depth <= 6 under ASan+UBSan; the same print ladder, byte sweep and write-size ladder; the depth-6 gcc instance uses a BUFSIZ-byte big block, the others 8193',
+    'quick': 'all histories of depth <= 5 over the full 54-operation alphabet (gcc build); depth <= 4 under ASan+UBSan; print ladder N = 0..300 and 14 larger sizes up to 20000 x 3 variants, byte sweep 5 backends x 2 layouts x 2 write chunkings, write-size ladder 19 sizes x 2 alignments x 5 backends (gcc and ASan); depth <= 4 also with a BUFSIZ-byte big block; *-sfx1 instances: the same alphabet with the last operation of the history in the state key (small universes)',
+    'thorough': 'all histories of depth <= 7 over 53 operations (all but the 257-character print_to) and of depth <= 6 over the full 54-operation alphabet (gcc build); depth <= 6 under ASan+UBSan; the same print ladder, byte sweep and write-size ladder; the depth-6 gcc instance uses a BUFSIZ-byte big block, the others 8193; *-sfx1 / *-sfx2 instances: the last one / two operations of the history in the state key',
   },
   'assumptions': [
     'glibc stdio is the reference for the twin stream; a disagreement between the twin and the harness\'s own byte-array model is reported as a harness error (exit 2), never as a verdict',
@@ -59,6 +59,8 @@ CHECK = {
   ],
   'instances': {
     'quick': [
+      # history suffix in the state key (lib/vf_bfs.h suffix=K): the last K operations keep histories apart that end in one visible state
+      T('d4-sfx1', 'base', 'depth=4', 'suffix=1'),
       T('d5', 'base', 'depth=5'),
       T('d4-asan', 'asan', 'depth=4'),
       T('d4-bufsiz', 'base', 'depth=4', 'big=bufsiz'),
@@ -66,6 +68,8 @@ CHECK = {
       T('ladder-asan', 'asan', 'mode=ladder'),
     ],
     'thorough': [
+      # history suffix in the state key (lib/vf_bfs.h suffix=K): the last K operations keep histories apart that end in one visible state
+      T('d5-sfx1', 'base', 'depth=5', 'suffix=1', 'bigprint=0'),
       T('d7', 'base', 'depth=7', 'bigprint=0'),
       T('d6-full', 'base', 'depth=6', 'big=bufsiz'),
       T('d6-asan', 'asan', 'depth=6'),
